@@ -151,7 +151,12 @@ int run_udp(Tape &t, Info *info, Case &cs, World &w, coap_context_t *ctx) {
     s.token = {(uint8_t)(0xA0 + s.sess), (uint8_t)i};
     cs.subs.push_back(s);
   }
-  std::vector<FaultDecision> faults(96);
+  // optionally the application declares session 0 failed (public API coap_session_disconnected) while messages are in flight / held
+  // (drawn before the long fault / reply plans so that short tapes reach this decision)
+  uint64_t fail_at = UINT64_MAX;
+  bool inject_failure = t.chance(56);
+  if (inject_failure) fail_at = w.now + (t.pick({1, 1}) ? t.range(0, 300) : t.range(300, clock + 6000));
+  std::vector<FaultDecision> faults(64);
   for (auto &f : faults) {
     switch (t.pick({8, 3, 2, 2})) {
     case 0: break;
@@ -161,7 +166,7 @@ int run_udp(Tape &t, Info *info, Case &cs, World &w, coap_context_t *ctx) {
     }
   }
   w.fault = [&](const Datagram &, unsigned idx) { return idx < faults.size() ? faults[idx] : FaultDecision(); };
-  std::vector<std::vector<ReplyPlan>> replies(nsess, std::vector<ReplyPlan>(64));
+  std::vector<std::vector<ReplyPlan>> replies(nsess, std::vector<ReplyPlan>(40));
   for (auto &rv : replies) for (auto &r : rv) { r.action = (int)t.pick({6, 2, 2}); r.delay = t.pick({3, 2}) == 0 ? 0 : t.range(1, 3000); }
   for (unsigned i = 0; i < nsess; i++) {
     cs.sess[i].peer->on_rx = [&, i](World &ww, Peer &p, const Datagram &d) {
@@ -175,6 +180,10 @@ int run_udp(Tape &t, Info *info, Case &cs, World &w, coap_context_t *ctx) {
     };
   }
   for (size_t i = 0; i < cs.subs.size(); i++) w.at(w.now + cs.subs[i].at, [&, i]() { submit(cs, w, cs.subs[i]); });
+  if (inject_failure) {
+    w.at(fail_at, [&]() { w.note("APP: coap_session_disconnected(session 0)"); coap_session_disconnected(cs.sess[0].s, COAP_NACK_NOT_DELIVERABLE); });
+    info->label("session-failure-injected");
+  }
   bool quiet = w.run(w.now + 50000000ull, 80000);
 
   int verdict = HELD;
@@ -197,6 +206,26 @@ int run_udp(Tape &t, Info *info, Case &cs, World &w, coap_context_t *ctx) {
           if (inflight.erase(kv.first)) { if (kv.second->nack_reason == COAP_NACK_TOO_MANY_RETRIES) rel_giveup = true; }
           kv.second->done_t = std::min(kv.second->done_t, e.t);
         }
+        continue;
+      }
+      if (e.kind == EV_NOTE && si == 0 && e.note.compare(0, 4, "APP:") == 0) {
+        // session failure: everything accepted and not yet completed is reported by exactly one NACK, now
+        for (auto &kv : bymid) {
+          Sub *s = kv.second;
+          if (!s->con || s->submit_t > e.t || (s->submit_t == e.t && s->tx.empty() && s->nacks == 0)) continue;
+          bool completed_before = s->done_t != UINT64_MAX && s->done_t < e.t;
+          if (completed_before) continue;
+          if (s->done_t == e.t && !inflight.count(kv.first) && !s->tx.empty() && s->nacks <= 1) { continue; }  // completed in the same instant
+          if (s->nacks != 1) {
+            info->fail("session 0 failed at %llu: Confirmable tok=%s (%s) was reported by %d NACK(s), expected exactly one", (unsigned long long)e.t, hex(s->token, 8).c_str(), s->tx.empty() ? "held" : "in flight", s->nacks);
+            verdict = VIOLATION;
+            break;
+          }
+          s->done_t = std::min(s->done_t, e.t);
+          if (s->tx.empty()) { first_tx_order.push_back(kv.first); s->tx.push_back(e.t); info->label("held-at-failure"); }
+        }
+        inflight.clear();
+        if (verdict != HELD) break;
         continue;
       }
       if ((e.kind != EV_SEND && e.kind != EV_DELIVER) || !simh::parse(e.data, &m)) continue;
